@@ -289,8 +289,7 @@ example : (moveLoop 1 [{ sn := 5 }, { sn := 6 }] [] 5).buf = [{ sn := 6 }] ∧
 
 /-- The dead-link flag `state` is written by phase 5 but read by nothing: changing it in the input
 state changes nothing but `state` in the result of `flush`, `input`, `recv`, `send`, the setters,
-and nothing at all in what they return or send.  (`update` = timer arithmetic + `flush` is not
-covered here.) -/
+`update`, and nothing at all in what they return or send. -/
 theorem C02_dead_link_only_flag (k : Kcp) (v : U32) :
     (∀ full now,
       (∃ w, (flush { k with state := v } full now).k = { (flush k full now).k with state := w }) ∧
@@ -311,6 +310,11 @@ theorem C02_dead_link_only_flag (k : Kcp) (v : U32) :
       (∃ w, (send { k with state := v } buffer).k = { (send k buffer).k with state := w }) ∧
       (send { k with state := v } buffer).ret = (send k buffer).ret ∧
       (send { k with state := v } buffer).panic = (send k buffer).panic) ∧
+    (∀ now,
+      (∃ w, (update { k with state := v } now).k = { (update k now).k with state := w }) ∧
+      (update { k with state := v } now).outs = (update k now).outs ∧
+      (update { k with state := v } now).interval = (update k now).interval ∧
+      (update { k with state := v } now).panic = (update k now).panic) ∧
     peekSize { k with state := v } = peekSize k ∧ waitSnd { k with state := v } = waitSnd k ∧
     (∀ now, check { k with state := v } now = check k now) ∧
     (∀ m, (∃ w, (setMtu { k with state := v } m).1 = { (setMtu k m).1 with state := w }) ∧
@@ -319,7 +323,7 @@ theorem C02_dead_link_only_flag (k : Kcp) (v : U32) :
     (∀ nd iv rs nc, ∃ w, noDelay { k with state := v } nd iv rs nc = { noDelay k nd iv rs nc with state := w }) := by
   have h : KSE { k with state := v } k := ⟨v, rfl⟩
   exact ⟨fun full now => flush_se h full now, fun data regular ackNoDelay now => input_se h data regular ackNoDelay now,
-    fun n => recv_se h n, fun b => send_se h b, (misc_se h).1, (misc_se h).2.1, (misc_se h).2.2.1,
+    fun n => recv_se h n, fun b => send_se h b, fun now => update_se h now, (misc_se h).1, (misc_se h).2.1, (misc_se h).2.2.1,
     (misc_se h).2.2.2.1, (misc_se h).2.2.2.2.1, (misc_se h).2.2.2.2.2⟩
 
 /-- non-vacuity: `state` IS written — a segment at the dead-link threshold sets it -/
